@@ -494,17 +494,28 @@ func c12RunMatrix(c c12Case, res *c12Result) {
 		res.fail("panic:matrix", "middleware panicked: %s", obs.Panic)
 		return
 	}
-	c12PrefixOK(res, obs.Lines, name, "matrix")
+	served := obs.InnerCalls
+	c12JudgeMatrix(res, name, *c.Exp, *c.Act, obs.Lines, &served, "")
+}
+
+// c12JudgeMatrix is the truth table of the property for one request: no
+// feedback iff all aspects agree; otherwise every line starts with the test
+// name, every deviating aspect is mentioned by some line and every line is
+// attributable to a deviating aspect. served (optional) = how many times the
+// request was handed on / answered; keySuffix is appended to violation keys.
+func c12JudgeMatrix(res *c12Result, name string, exp c12Side, act c12Actual, lines []string, served *int, keySuffix string) {
+	dis := c12Disagree(exp, act.c12Side)
+	c12PrefixOK(res, lines, name, "matrix"+keySuffix)
 	if len(dis) == 0 {
-		if len(obs.Lines) != 0 {
-			res.fail("false-feedback:all-aspects-match", "request matches its expectation in every aspect but feedback was printed: %q", obs.Lines)
+		if len(lines) != 0 {
+			res.fail("false-feedback:all-aspects-match"+keySuffix, "request matches its expectation in every aspect but feedback was printed: %q (expected %+v, actual %+v)", lines, exp, act)
 		}
-		if obs.InnerCalls != 1 {
-			res.fail("matching-request-not-served", "inner handler called %d times for a matching request", obs.InnerCalls)
+		if served != nil && *served != 1 {
+			res.fail("matching-request-not-served"+keySuffix, "inner handler called / response delivered %d times for a matching request", *served)
 		}
 		return
 	}
-	low := c12Lower(obs.Lines, name)
+	low := c12Lower(lines, name)
 	for _, a := range dis {
 		found := false
 		for _, l := range low {
@@ -514,11 +525,11 @@ func c12RunMatrix(c c12Case, res *c12Result) {
 			}
 		}
 		if !found {
-			res.fail("aspect-not-flagged:"+a, "aspect %q deviates (expected %+v, actual %+v) but no feedback line mentions it; lines=%q", a, *c.Exp, *c.Act, obs.Lines)
+			res.fail("aspect-not-flagged:"+a+keySuffix, "aspect %q deviates (expected %+v, actual %+v) but no feedback line mentions it; lines=%q", a, exp, act, lines)
 		}
 	}
 	// "exactly": every line must be attributable to an aspect that really deviates
-	for i, l := range obs.Lines {
+	for i, l := range lines {
 		ok := false
 		for _, a := range dis {
 			if c12Mentions(low[i], a) {
@@ -536,7 +547,7 @@ func c12RunMatrix(c c12Case, res *c12Result) {
 			if len(which) == 0 {
 				which = []string{"unrelated-line"}
 			}
-			res.fail("false-feedback:"+strings.Join(which, "+"), "feedback line %q is not about any deviating aspect (deviating: %v; expected %+v, actual %+v)", l, dis, *c.Exp, *c.Act)
+			res.fail("false-feedback:"+strings.Join(which, "+")+keySuffix, "feedback line %q is not about any deviating aspect (deviating: %v; expected %+v, actual %+v)", l, dis, exp, act)
 		}
 	}
 }
